@@ -120,6 +120,7 @@ type Case struct {
 	Twin   string `json:"twin,omitempty"`   // class of the unbroken twin this case was derived from
 
 	Quote         []byte          `json:"quote"`
+	Msg           []byte          `json:"msg,omitempty"` // when set: protobuf wire bytes of the QuoteV4 message handed to the library instead of Quote (the reference still judges Quote)
 	Form          string          `json:"form"`
 	GetCollateral bool            `json:"get_collateral"`
 	CheckCRL      bool            `json:"check_crl"`
